@@ -148,7 +148,20 @@ def c04(ctx):
         if rnd.random() < 0.35:
             req = gen.add_biases(rnd, req, names=[rnd.choice(order_free) for _ in range(rnd.choice([1, 1, 2]))], prob_mix=False)
         return req
-    reqs = [ctx.replay['request']] if ctx.replay and 'request' in ctx.replay else [g2(rnd) for _ in range(n2)]
+    def anchored(rnd):
+        """several distinct anchoring alternatives named in an order of their own (not the listing order), coefficients of mixed
+        size including 0 / left out: the reference point is a function of the bias parameters, not of the listing"""
+        req = gen.utility_request(rnd, n_alts=rnd.choice([3, 4, 5]))
+        b = gen.gen_bias(rnd, 'anchoring', req, len(req['criteria']))
+        ids = [a['id'] for a in req['knownAlternatives']]
+        rnd.shuffle(ids)
+        b['props']['anchoringAlternatives'] = [dict({'alternative': i}, **({} if rnd.random() < 0.15 else
+                                                {'coefficient': rnd.choice([0.0, 0.0, 1.0, 0.5, 2.0, 0.25])}))
+                                               for i in ids[:rnd.choice([2, 2, 3])]]
+        req['biases'] = [b]
+        return req
+    reqs = [ctx.replay['request']] if ctx.replay and 'request' in ctx.replay else \
+        [g2(rnd) for _ in range(n2)] + [anchored(rnd) for _ in range(n_cases(ctx, 40, 600))]
     terms, keep = [], []
     for req in reqs:
         res = ctx.pipe.call({'op': 'decide', 'req': req})
@@ -182,7 +195,8 @@ def c04(ctx):
                           {'request': req, 'observed': res['resp'], 'checker': 'C04_ok'}, {'method': req['preferenceFunction']})
     return ctx.finish(
         'component: random (id,value) lists with runs of equal values / all equal / values coinciding only after 1e-8 rounding; '
-        'end to end: random utility-method requests plus two listing-order permutations each. distinct = (n, tie pattern) signatures, '
+        'end to end: random utility-method requests (a third with biases, plus anchoring on several alternatives with coefficients '
+        'including 0) and two listing-order permutations each. distinct = (n, tie pattern) signatures, '
         'non-trivial = at least two alternatives',
         './check C04')
 
@@ -192,7 +206,7 @@ def c04(ctx):
 from . import e2e
 import glob
 
-COL = {name: i for i, name in enumerate(['agree', 'C01', 'C03', 'C04', 'C05', 'C11', 'C12', 'C13', 'C01struct', 'C03values', 'C06', 'C08', 'C13order'])}
+COL = {name: i for i, name in enumerate(e2e.COLS)}
 
 
 def load_corpus(pid):
@@ -257,6 +271,10 @@ def shrink(ctx, req, still_fails, budget=40):
     return cur
 
 
+COL_TEXT = {'coherent': 'the method is evaluated on incoherent data: a criterion the alternatives carry has no entry in the method parameters '
+                        '(or an alternative lacks a value), so what is reported is not the aggregate over the criteria the alternative is evaluated on'}
+
+
 def method_check(ctx, col, gens, n_quick, n_thorough, rule, agree_col='agree', agree_scope=None,
                  finding_facts=None, code2_finding=None, excuse=None, search_gens=None, also_cols=(), extra_corr=None, spec_determines=None):
     """gens: list of (weight, generator(rnd) -> request). col: checker column name.
@@ -305,8 +323,12 @@ def method_check(ctx, col, gens, n_quick, n_thorough, rule, agree_col='agree', a
                            'final_state': r3.get('evalInput'), 'checker': 'Check/%s.v' % col[:3]}, facts)
         for ec in also_cols:
             if len(v) > COL[ec] and v[COL[ec]] != 0:
-                ctx.violation('checker %s rejects what the implementation returned' % ec,
+                ctx.violation(COL_TEXT.get(ec) or 'checker %s rejects what the implementation returned' % ec,
                               {'request': req, 'response': res.get('resp'), 'final_state': res.get('evalInput'), 'checker': ec}, facts)
+        if v[0] == 2 and res.get('kind') == 'panic' and 'runtime error' in str(res.get('err')):
+            # not a rejection: the implementation crashes on a request its specification (the model) answers
+            ctx.violation('the implementation fails with a Go runtime error on a request its specification answers: %s' % str(res.get('err'))[:160],
+                          {'request': req, 'error': res.get('err')}, facts)
         if v[ai] != 0 and (agree_scope is None or agree_scope(req)):
             if excuse and excuse(req, res, v):
                 ctx.count('correspondence/excused')
@@ -362,15 +384,37 @@ def gen_method(m):
 ALL_GENS = [(1, gen_method(m)) for m in gen.METHODS]
 
 
+def no_criteria_left(rnd):
+    """requests the method finally evaluates without any criterion: declared that way, or every criterion omitted by a bias"""
+    req = gen.any_request(rnd, rnd.choice(gen.METHODS + ['weightedSum', 'weightedSum', 'owa']))
+    if rnd.random() < 0.4:
+        req['criteria'] = []
+        for a in req['knownAlternatives']:
+            a['criteria'] = {}
+        mp = req.get('methodParameters') or {}
+        if isinstance(mp.get('weights'), dict) and rnd.random() < 0.7:
+            mp['weights'] = {}
+        if 'electreCriteria' in mp:
+            mp['electreCriteria'] = {}
+    else:
+        n = len(req['criteria'])
+        p = rnd.choice([{'ratio': 1.0}, {'ratio': 1.0, 'ordering': 'strongest'}, {'ratio': 0.0, 'min': n}, {'ratio': 0.5, 'min': n, 'max': n + 1}])
+        pre = [gen.gen_bias(rnd, rnd.choice(gen.BIASES), req, n)] if rnd.random() < 0.3 and n else []
+        req['biases'] = pre + [{'name': 'criteriaOmission', 'props': dict(p)}]
+    if len(req['choseToMake']) < 2:
+        req['choseToMake'] = [a['id'] for a in req['knownAlternatives']]
+    return req
+
+
 @check('C01')
 def c01(ctx):
     return method_check(
         ctx, 'C01', ALL_GENS + [(2, gen_method('majorityHeuristic')), (2, gen_method('aspectEliminationHeuristic')), (2, gen_method('satisfactionHeuristic')),
-                                (4, gen_biased()),
+                                (4, gen_biased()), (1, no_criteria_left), (0.15, lambda rnd: gen.many_alternatives_request(rnd)),
                                 (2, lambda rnd: gen.biased_request(rnd, method=rnd.choice(gen.HEURISTICS), prob_mix=False))], 450, 8000,
         'random valid requests over the seven methods (the three heuristics over-weighted: tie groups under every draw policy), currentChoice '
         'absent / considered / known-only, shuffled orders; half of the requests carry bias sequences of length 1-4 over the six biases; '
-        'distinct = (method, sizes, currentChoice position, bias sequence, draw policy, outcome shape); '
+        'requests evaluated without any criterion (none declared / all omitted); distinct = (method, sizes, currentChoice position, bias sequence, draw policy, outcome shape); '
         'non-trivial = accepted with at least two entries',
         agree_col='C01struct', excuse=not_tied_aspect)
 
@@ -384,7 +428,7 @@ def c03(ctx):
         'capacities with scrambled keys, values with near-ties at 0.9e-5 / 1.1e-5; half of the requests carry bias sequences of length 1-4 '
         '(the value must be the aggregate of the post-bias values under the post-bias parameters, both dumped from the running code); '
         'distinct = request shape x outcome shape',
-        agree_col='C03values',
+        agree_col='C03values', also_cols=('coherent',),
         code2_finding='weightedSum reports the plain sum of the (signed) values, the weights are not applied')
 
 
@@ -489,9 +533,10 @@ def c05(ctx):
     ctx.before_finish = c05_matrices
     return method_check(
         ctx, 'C05', [(3, gen_method('electreIII')), (1, (lambda rnd: gen.biased_request(rnd, method='electreIII', prob_mix=False))), (2, veto_grid),
-                     (0.25, lambda rnd: gen.large_request(rnd, 'electreIII', lo=13, hi=23))], 300, 6000,
+                     (0.25, lambda rnd: gen.large_request(rnd, 'electreIII', lo=13, hi=23)),
+                     (0.07, lambda rnd: gen.many_alternatives_request(rnd, 'electreIII', hi=92))], 300, 6000,
         'random electreIII requests: gain and cost criteria, every presence pattern of q<p<v, ties on criteria and identical '
-        'alternatives, default and custom distillation functions; plus raw credibility matrices over {0, 1/4, .., 1} of size 2-6 through the '
+        'alternatives, default and custom distillation functions, instances of 13-23 and of 65-92 alternatives; plus raw credibility matrices over {0, 1/4, .., 1} of size 2-6 through the '
         'exported RankAscending / RankDescending (ex-aequo best sets needing inner distillations, classes removed from the middle); '
         'distinct = request shape x outcome shape, matrix size x function x result; plus the credibility matrix of every evaluated state '
         '(and of 250+ integer-grid requests with several partial vetoes per pair) against the model entry by entry; when a correspondence '
@@ -499,19 +544,84 @@ def c05(ctx):
         agree_col='agree', extra_corr=c05_cred, search_gens=[(1, veto_grid)])
 
 
+def c11_concurrent(ctx):
+    """majority requests with different draw policies served at the same time by the one registered heuristic: the policy each
+    request configures decides its own draws (every answer is judged by the checker, and compared with the answer given alone)"""
+    if ctx.replay and 'batch' not in ctx.replay:
+        return
+    rnd = ctx.rnd
+    def drawy(rnd):
+        # many alternatives over few distinct values on equally weighted criteria: most comparisons end in a draw
+        n = rnd.choice([24, 32, 40])
+        cids = rnd.sample(gen.CRIT_IDS, 2)
+        alts = [{'id': 'a%02d' % i, 'criteria': {c: float(rnd.randint(0, 1)) for c in cids}} for i in range(n)]
+        mp = {'weights': {c: 1.0 for c in cids}, 'randomSeed': rnd.randint(0, 10 ** 6), 'randomAlternativesOrdering': rnd.random() < 0.5}
+        dr = rnd.choice(['allow', 'current', 'newer', 'random', None])
+        if dr:
+            mp['drawResolution'] = dr
+        if rnd.random() < 0.4:
+            mp['currentChoice'] = rnd.choice(alts)['id']
+        return {'preferenceFunction': 'majorityHeuristic', 'knownAlternatives': alts, 'choseToMake': [a['id'] for a in alts],
+                'criteria': [{'id': c, 'type': 'gain'} for c in cids], 'methodParameters': mp, 'biases': [], 'biasApplyRandomSeed': 0}
+    for bi in range(1 if ctx.replay else n_cases(ctx, 5, 80)):
+        base = [drawy(rnd) for _ in range(10)]
+        batch = ctx.replay['batch'] if ctx.replay else [rnd.choice(base) for _ in range(48)]
+        alone = {}
+        for r in batch:
+            k = json.dumps(r, sort_keys=True)
+            if k not in alone:
+                alone[k] = ctx.pipe.call({'op': 'trace', 'req': r})
+        pp = core.Pipe(ctx.binary)
+        out = pp.call({'op': 'conc', 'reqs': batch}, timeout=120)
+        pp.close()
+        ctx.count('concurrent batches of 48 majority requests with mixed draw policies')
+        if not out.get('ok'):
+            ctx.violation('the process died or hung while serving concurrent majority requests', {'batch': batch, 'answer': out}, {})
+            return
+        terms, keep = [], []
+        for r, got in zip(batch, out['results']):
+            want = alone[json.dumps(r, sort_keys=True)]
+            ctx.evaluations += 1
+            if got.get('ok') and want.get('ok'):
+                g2 = dict(got, evalInput=want.get('evalInput'))
+                terms.append(e2e.xcase_term(ctx.pipe, r, g2, 2048, ()))
+                keep.append((r, got, want))
+            elif got.get('ok') != want.get('ok'):
+                ctx.violation('a majority request answered concurrently differs from the same request answered alone',
+                              {'batch': batch, 'request': r, 'alone': want.get('resp') or want.get('err'),
+                               'concurrent': got.get('resp') or got.get('err')}, {'method': 'majorityHeuristic'})
+                return
+        verd, logs = core.run_cases('C11c', 'judge_all', terms, shard=12)
+        for (r, got, want), v in zip(keep, verd):
+            if len(v) > COL['C11'] and v[COL['C11']] != 0:
+                ctx.violation('checker C11_ok rejects the answer to a majority request served while requests with other draw policies were served',
+                              {'batch': batch, 'request': r, 'concurrent': got.get('resp'), 'alone': want.get('resp'), 'checker': 'Check/C11.v'},
+                              {'method': 'majorityHeuristic'})
+                return
+            if got.get('resp') != want.get('resp'):
+                ctx.violation('a majority request answered concurrently differs from the same request answered alone (its draws were not '
+                              'decided by the policy it configures)',
+                              {'batch': batch, 'request': r, 'alone': want.get('resp'), 'concurrent': got.get('resp')}, {'method': 'majorityHeuristic'})
+                return
+
+
 @check('C11')
 def c11(ctx):
+    ctx.before_finish = c11_concurrent
     return method_check(
-        ctx, 'C11', [(2, gen_method('majorityHeuristic')), (1, (lambda rnd: gen.biased_request(rnd, method='majorityHeuristic', prob_mix=False)))], 300, 6000,
+        ctx, 'C11', [(2, gen_method('majorityHeuristic')), (1, (lambda rnd: gen.biased_request(rnd, method='majorityHeuristic', prob_mix=False))),
+                     (0.04, lambda rnd: gen.many_alternatives_request(rnd, 'majorityHeuristic'))], 300, 6000,
         'random majority requests: all four draw policies, seeded order, three positions of currentChoice, value ties within 1e-6, '
-        'equal and mixed weights', agree_col='agree',
+        'equal and mixed weights; plus batches of 48 draw-heavy majority requests with mixed draw policies served concurrently, every answer '
+        'judged by the checker and compared with the answer given alone', agree_col='agree',
         spec_determines='Properties/C11.v: majority_is_tournament - the tournament over the search order, current choice first, is a function of the request and its seeded draws')
 
 
 @check('C12')
 def c12(ctx):
     return method_check(
-        ctx, 'C12', [(2, gen_method('aspectEliminationHeuristic')), (1, (lambda rnd: gen.biased_request(rnd, method='aspectEliminationHeuristic', prob_mix=False)))], 300, 6000,
+        ctx, 'C12', [(2, gen_method('aspectEliminationHeuristic')), (1, (lambda rnd: gen.biased_request(rnd, method='aspectEliminationHeuristic', prob_mix=False))),
+                     (0.04, lambda rnd: gen.many_alternatives_request(rnd, 'aspectEliminationHeuristic'))], 300, 6000,
         'random aspect-elimination requests: explicit thresholds and both generated series (dyadic parameters landing on bounds), '
         'gain and cost criteria, shuffled order, single alternatives; correspondence claimed for pairwise distinct weights',
         agree_col='agree', excuse=not_tied_aspect,
@@ -633,7 +743,7 @@ STAGE_TEXT = {1: 'model rejects what the code accepts', 2: 'the code fails where
               12: 'model out of fuel', 99: 'case file did not evaluate'}
 
 
-def stage_check(ctx, col, names, gens, n_quick, n_thorough, rule, extra=None, agree_names=None, search_gens=None):
+def stage_check(ctx, col, names, gens, n_quick, n_thorough, rule, extra=None, agree_names=None, search_gens=None, failure_is_violation=False):
     extra_fn = extra
     """col: checker column of judge_stage deciding the property for stages whose bias is in `names`
     (None = all stages); the stage correspondence of those stages ties the model to the code."""
@@ -672,7 +782,7 @@ def stage_check(ctx, col, names, gens, n_quick, n_thorough, rule, extra=None, ag
                            'checker': 'Check/BiasCheckers.v %s_ok' % col}, facts)
         if extra:
             extra(ctx, req, res, info, v, facts)
-        if v[0] == 2 and ci is not None:
+        if v[0] == 2 and (ci is not None or failure_is_violation):
             # the bias fails on data on which its specification (the model) produces a result: what the property says the bias does
             # does not happen for this request
             ctx.violation('%s fails where its specification succeeds: %s' % (name, str(res.get('err'))[:200]),
@@ -697,6 +807,9 @@ def stage_check(ctx, col, names, gens, n_quick, n_thorough, rule, extra=None, ag
                                'after': info['stage'].get('curAfter'), 'report': info['stage'].get('props')}, facts)
             if extra_fn:
                 extra_fn(ctx, req, res, info, v, facts)
+            if v[0] == 2 and (ci is not None or failure_is_violation):
+                ctx.violation('%s fails where its specification succeeds (found by the search phase): %s' % (name, str(res.get('err'))[:200]),
+                              {'request': req, 'bias': info['bias'], 'before': info['stage'].get('curBefore'), 'error': res.get('err')}, facts)
             if any(vv[2] for vv in ctx.violations):
                 break
     if broken and not any(vv[2] for vv in ctx.violations):
@@ -756,7 +869,30 @@ def c16(ctx):
         p.pop('max', None)
         p.pop('min', None)
         return req
-    stage_check(ctx, 'C16', ['preferenceReversal'], [(3, seq_with('preferenceReversal')), (1, mix_then_reverse)], 200, 4000,
+    def single_criterion(rnd):
+        """one criterion only (alone from the start, or left over by an omission), a weight other than 1, every ordering: nothing to order,
+        and still nothing but the mirrored values may change"""
+        m = rnd.choice(['weightedSum', 'weightedSum', 'owa', 'electreIII', 'majorityHeuristic', 'aspectEliminationHeuristic', 'satisfactionHeuristic'])
+        start = rnd.random() < 0.6
+        if m in gen.UTILITY:
+            req = gen.utility_request(rnd, m, n_crits=1 if start else 2)
+        elif m == 'electreIII':
+            req = gen.electre_request(rnd, n_crits=1 if start else 2)
+        else:
+            req = gen.heuristic_request(rnd, m, n_crits=1 if start else 2)
+        w = (req.get('methodParameters') or {}).get('weights')
+        if isinstance(w, dict) and m != 'owa':
+            for k in w:
+                w[k] = rnd.choice([4.0, 0.25, 2.5, 3.0])
+        rev = gen.gen_bias(rnd, 'preferenceReversal', req, 1)
+        rev['props'].update(ratio=1.0, ordering=rnd.choice(['weakestByProbability', 'strongestByProbability', 'weakest', 'random']), randomSeed=gen.some_seed(rnd))
+        rev['props'].pop('max', None)
+        rev['props'].pop('min', None)
+        pre = [] if start else [{'name': 'criteriaOmission', 'props': {'ratio': 0.5}}]
+        post = [gen.gen_bias(rnd, 'criteriaConcealment', req, 1)] if rnd.random() < 0.4 else []
+        req['biases'] = pre + [rev] + post
+        return req
+    stage_check(ctx, 'C16', ['preferenceReversal'], [(3, seq_with('preferenceReversal')), (1, mix_then_reverse), (0.6, single_criterion)], 200, 4000,
                 'requests over all methods with preference reversal alone, after and before other biases; all orderings and ratios, '
                 'with and without declared ranges, considered set equal to / smaller than the known set; one evaluation = one traced '
                 'application of the bias; distinct = (method, ordering, sizes, neighbouring biases)',
@@ -768,7 +904,28 @@ def c16(ctx):
 
 @check('C17')
 def c17(ctx):
-    stage_check(ctx, 'C17', ['fatigue'], [(1, seq_with('fatigue'))], 200, 4000, '', agree_names=['fatigue'], search_gens=[(1, seq_with('fatigue'))])
+    def fatigue_then(rnd):
+        """fatigue followed by biases that rebuild or restrict the data it handed on"""
+        nxt = [rnd.choice(['criteriaOmission', 'criteriaOmission', 'preferenceReversal', 'anchoring', 'criteriaMixing', 'criteriaConcealment'])
+               for _ in range(rnd.choice([1, 1, 2]))]
+        req = gen.biased_request(rnd, names=['fatigue'] + nxt, prob_mix=False)
+        for b in req['biases'][1:]:
+            if b['name'] in ('criteriaOmission', 'preferenceReversal'):
+                b['props']['ratio'] = rnd.choice([0.5, 0.75, 1.0])
+                b['props'].pop('max', None)
+                if b['name'] == 'criteriaOmission':
+                    b['props']['max'] = max(1, len(req['criteria']) - 1)
+        return req
+
+    def c17_extra(ctx, req, res, info, v, facts):
+        # the report the response carries (read again after the whole decision was made) is still the data fatigue handed on
+        if info['bias'].get('name') == 'fatigue' and v[SCOL['C09later']] != 0:
+            ctx.violation('the fatigue report as returned with the decision no longer carries the values fatigue handed on (altered by a later stage)',
+                          {'request': req, 'bias': info['bias'], 'report_at_return': info['stage'].get('props'),
+                           'report_at_end': info['stage'].get('propsFinal'), 'after_at_return': info['stage'].get('curAfter'),
+                           'after_at_end': info['stage'].get('curAfterFinal')}, facts)
+    stage_check(ctx, 'C17', ['fatigue'], [(2, seq_with('fatigue')), (1, fatigue_then)], 200, 4000, '', agree_names=['fatigue'],
+                search_gens=[(1, seq_with('fatigue'))], extra=c17_extra)
     return ctx.finish(
         'traced applications of fatigue inside random bias sequences over all methods: const and expFromZero ratio (incl. 0 and negative), '
         'values of any sign, bounding off / 0.5 / 1 / 3 / non-negative, heuristics with a current choice; distinct = (method, function, '
@@ -888,7 +1045,7 @@ def c07(ctx):
         """a criterion is added, omitted again (it is the weakest: importance 0, one criterion omitted), and the same bias adds one once more:
         the criteria list after the omission equals the original one"""
         first = rnd.choice(['criteriaConcealment', 'criteriaConcealment', 'criteriaMixing'])
-        req = gen.biased_request(rnd, method=rnd.choice(gen.METHODS + ['choquetIntegral', 'choquetIntegral']),
+        req = gen.biased_request(rnd, method=rnd.choice(gen.METHODS + ['choquetIntegral', 'choquetIntegral', 'electreIII']),
                                  names=[first, 'criteriaOmission', first], prob_mix=False)
         for b in (req['biases'][0], req['biases'][2]):
             b['props']['referenceCriterionType'] = 'importanceRatio'
@@ -896,7 +1053,7 @@ def c07(ctx):
         req['biases'][1]['props'] = {'ratio': 0.0, 'min': 1, 'max': 1, 'ordering': 'weakest'}
         return req
     infos, verd, reqs, ress = stage_check(ctx, None, None, gens + [(1, adders_then), (0.5, add_omit_add)], 400, 8000, '', extra=c07_extra,
-                                          search_gens=[(1, adders_then)])
+                                          search_gens=[(1, adders_then), (1, add_omit_add)], failure_is_violation=True)
     # the same combination once more in the same process: still a ranking (Choquet with a criterion-adding bias over-weighted)
     again = [(q, r) for q, r in zip(reqs, ress) if r.get('ok') and e2e.enabled_biases(q)]
     again.sort(key=lambda qr: 0 if (qr[0].get('preferenceFunction') == 'choquetIntegral'
@@ -909,17 +1066,19 @@ def c07(ctx):
                           % str(r2.get('err'))[:200], {'request': q, 'first': r.get('resp'), 'again': r2.get('err')},
                           {'method': q.get('preferenceFunction')})
             break
-    # a valid request with valid biases must end in a ranking
-    for req, res in zip(reqs, ress):
-        if not res.get('ok') and res.get('kind') == 'panic':
-            st = res.get('stages') or []
-            # an error raised by the method after the biases ran (all stages returned) is a combination failure too
-            if st and all(s.get('curAfter') is not None for s in st):
-                mres = core.eval_term('C07m', 'is_ok (decide %s %s)' % (e2e.env_for(ctx.pipe, req, 256, e2e.exp_table(ctx.pipe, e2e.exp_args(req, res))),
-                                                                          emit.crequest(req)))
-                if 'true' in mres:
-                    ctx.violation('the method fails on the data the biases handed on: %s' % str(res.get('err'))[:200],
-                                  {'request': req, 'error': res.get('err')}, {'method': req.get('preferenceFunction')})
+    # a valid request with valid biases must end in a ranking: a request on which a bias or the method fails although the specification
+    # (the model of the whole request, same seeded draws) yields a ranking
+    failing = [(q, r) for q, r in zip(reqs, ress) if not r.get('ok') and r.get('kind') == 'panic']
+    ctx.count('requests/failing: %d' % len(failing))
+    if failing:
+        r9, v9, _ = e2e.run_all(ctx.pipe, [q for q, _ in failing], 'C07m')
+        for (q, r), v in zip(failing, v9):
+            if v and v[0] == 2:
+                st = r.get('stages') or []
+                where = next((x.get('name') for x in st if x.get('curAfter') is None), 'the method')
+                ctx.violation('the combination fails (in %s) where its specification yields a ranking: %s' % (where, str(r.get('err'))[:200]),
+                              {'request': q, 'error': r.get('err'), 'failing_stage': where}, {'method': q.get('preferenceFunction')})
+                break
     return ctx.finish(
         'random requests: 7 methods x bias sequences of length 1-4 with repetition over the 6 biases and their options, considered = / '
         'subset of known; every traced bias application is one evaluation; distinct = (method, bias, options, sizes, sequence)', './check C07')
@@ -1648,7 +1807,26 @@ def c09(ctx):
             if rnd.random() < 0.7:
                 a['criteria']['zz_unused_column'] = rnd.choice([1.0, 2.5, -3.0])
         return req
-    gens = [(2, allc), (2, cur_in), (1, gen_biased()), (1, extra_values)]
+    def declared_ranges_bounded(rnd):
+        """every criterion declares its value range (most of them reaching below 0) and the biases that bound values run with the
+        identity scaling and / or the cut at zero: the ranges they work with are the request's own objects"""
+        names = [rnd.choice(['fatigue', 'fatigue', 'criteriaConcealment', 'anchoring'])] + [rnd.choice(gen.BIASES) for _ in range(rnd.choice([0, 1, 1, 2]))]
+        rnd.shuffle(names)
+        req = gen.biased_request(rnd, names=names, prob_mix=False)
+        for c in req['criteria']:
+            vals = [a['criteria'][c['id']] for a in req['knownAlternatives'] if c['id'] in a['criteria']]
+            if vals:
+                c['valuesRange'] = {'min': min(vals) - rnd.choice([0.5, 2.0, 7.0, 0.0]), 'max': max(vals) + rnd.choice([1.0, 0.5, 3.0])}
+        for b in req['biases']:
+            p = b['props']
+            tgt = p['applier']['params'] if b['name'] == 'anchoring' else p
+            if b['name'] in ('fatigue', 'criteriaConcealment', 'anchoring'):
+                if rnd.random() < 0.7:
+                    tgt['allowedValuesRangeScaling'] = 1.0
+                if rnd.random() < 0.7:
+                    tgt['disallowNegativeValues'] = True
+        return req
+    gens = [(2, allc), (2, cur_in), (1, gen_biased()), (1, extra_values), (1.2, declared_ranges_bounded)]
     infos, verd, reqs, ress = stage_check(ctx, None, None, gens, 160, 3000, '', extra=c09_extra)
     for req, res in zip(reqs, ress):
         if res.get('requestUnchanged') is False:
@@ -1684,7 +1862,11 @@ def c10(ctx):
         ctx.notes.append('race build unavailable: ' + str(e)[-300:])
     try:
         nb = n_cases(ctx, 40, 500)
+        hung = 0
         for bi in range(nb):
+            if hung >= 2:
+                ctx.notes.append('stopped after two batches on which the process died or hung (each costs the full timeout)')
+                break
             k = rnd.choice([2, 8, 8, 32])
             kind = rnd.choice(['identical', 'different', 'mixed-invalid'])
             if kind != 'identical' and rnd.random() < 0.6:
@@ -1704,6 +1886,16 @@ def c10(ctx):
                 # and requests that are rejected only while the biases or the method run (one of them: nothing chosen)
                 late = late_rejections(rnd, base[0])
                 base += [r for _, r in rnd.sample(late, min(2, len(late)))] + [r for n_, r in late if n_.startswith('nothing chosen')]
+                # documented constraints violated (rejected while decoding, validating, or inside a bias), next to valid requests
+                # that use the same bias: what a rejected request leaves behind (a held lock, a half-built table) must not reach them
+                inv = invalid_variants(rnd, base[0])
+                base += [r for _, r in rnd.sample(inv, min(2, len(inv)))]
+                if rnd.random() < 0.6:
+                    bn = rnd.choice(['anchoring', 'anchoring', 'fatigue', 'criteriaOmission', 'criteriaConcealment'])
+                    ok_b = gen.biased_request(rnd, names=[bn], prob_mix=False)
+                    key = {'anchoring': 'anchoring', 'fatigue': 'fatigue', 'criteriaOmission': 'omission', 'criteriaConcealment': 'concealment'}[bn]
+                    base += [ok_b, gen.biased_request(rnd, names=[bn], prob_mix=False)]
+                    base += [r for n_, r in invalid_variants(rnd, ok_b) if key in n_]
             batch = [rnd.choice(base) for _ in range(k)]
             seq = {}
             for r in base:
@@ -1721,6 +1913,7 @@ def c10(ctx):
                 if not out.get('ok'):
                     what = 'the process died or hung while serving concurrent requests' + (' (race detector build: a data race aborts the process)' if pi else '')
                     ctx.violation(what, {'batch': batch, 'answer': out, 'race_build': bool(pi)}, {})
+                    hung += 1
                     continue
                 for r, got in zip(batch, out['results']):
                     want = seq[json.dumps(r, sort_keys=True)]
@@ -1771,7 +1964,7 @@ def late_rejections(rnd, req):
     return out
 
 
-def invalid_variants(rnd, req):
+def invalid_variants(rnd, req, mistyped=True):
     """(constraint, request) pairs: one documented constraint violated on an otherwise valid request"""
     out = []
     def mod(name, f):
@@ -1845,6 +2038,20 @@ def invalid_variants(rnd, req):
         with_bias('mixing ratio out of range', {'name': 'criteriaMixing', 'props': {'mixingRatio': 1.5}})
     with_bias('anchoring without alternatives', {'name': 'anchoring', 'props': {'anchoringAlternatives': [], 'loss': {'function': 'linear', 'params': {'a': 1, 'b': 0}},
               'gain': {'function': 'linear', 'params': {'a': 1, 'b': 0}}, 'referencePoints': {'function': 'ideal'}, 'applier': {'function': 'inline', 'params': {}}}})
+    a0 = req['knownAlternatives'][0]['id']
+    def anch(**kw):
+        b = {'anchoringAlternatives': [{'alternative': a0, 'coefficient': 1}], 'loss': {'function': 'linear', 'params': {'a': 1, 'b': 0}},
+             'gain': {'function': 'linear', 'params': {'a': 1, 'b': 0}}, 'referencePoints': {'function': 'ideal'},
+             'applier': {'function': 'inline', 'params': {}}}
+        b.update(kw)
+        return {'name': 'anchoring', 'props': b}
+    if mistyped:
+        # parameters of the wrong JSON type for a function that exists (the typed model cannot even state them: service level only)
+        with_bias('anchoring gain parameter mistyped', anch(gain={'function': 'linear', 'params': {'a': 'steep', 'b': 0}}))
+        with_bias('anchoring loss parameters not an object', anch(loss={'function': 'expFromZero', 'params': [1, 2]}))
+        with_bias('anchoring applier parameter mistyped', anch(applier={'function': 'newCriterion', 'params': {'randomSeed': 'seven'}}))
+        with_bias('fatigue parameter mistyped', {'name': 'fatigue', 'props': {'function': 'const', 'params': {'value': 'tired'}}})
+        with_bias('omission ratio mistyped', {'name': 'criteriaOmission', 'props': {'ratio': 'half'}})
     with_bias('anchoring unknown function', {'name': 'anchoring', 'props': {'anchoringAlternatives': [{'alternative': req['knownAlternatives'][0]['id'], 'coefficient': 1}],
               'loss': {'function': 'noSuchFunction', 'params': {}}, 'gain': {'function': 'linear', 'params': {'a': 1, 'b': 0}},
               'referencePoints': {'function': 'ideal'}, 'applier': {'function': 'inline', 'params': {}}}})
@@ -2034,9 +2241,9 @@ def c20(ctx):
         # many alternatives (thresholds inside the code: batching, sort algorithms, pre-sized buffers): valid, every constraint violated,
         # and requests that pass the up-front validation but may be rejected while the method runs
         for m in (gen.METHODS if not ctx.replay else []):
-            for _ in range(n_cases(ctx, 1, 12)):
+            for li in range(n_cases(ctx, 2, 12)):
                 req = gen.large_request(rnd, m)
-                if rnd.random() < 0.5:
+                if li % 2 == 1:
                     req = gen.add_biases(rnd, req, prob_mix=False)
                 st, j = shot(json.dumps(req).encode(), 'valid request with many alternatives', None, req)
                 ctx.signatures.add(('large', m, st))
@@ -2060,7 +2267,7 @@ def c20(ctx):
     for _ in range(n_cases(ctx, 10, 120)):
         r = rnd.choice([gen.any_request, gen.biased_request])(rnd)
         reqs.append(r)
-        reqs += [x for _, x in rnd.sample(invalid_variants(rnd, r), 6)]
+        reqs += [x for _, x in rnd.sample(invalid_variants(rnd, r, mistyped=False), 6)]
     ress, verd, logs = e2e.run_all(ctx.pipe, reqs, 'C20')
     bad = [(r, res, v) for r, res, v in zip(reqs, ress, verd) if v and v[0] in (1, 2, 99)]
     for r, res, v in bad[:3]:
